@@ -293,6 +293,7 @@ impl<'a> Driver<'a> {
         }
         if self.on("text") {
             self.obs_text(b);
+            self.obs_near(b);
         }
         if self.on("rebuild") {
             let r = guard(|| BoardBuilder::from_board(b).build());
@@ -490,6 +491,56 @@ impl<'a> Driver<'a> {
                 jstr(&sfen), jstr(&fen), Self::reparse(b, &sfen, 1), Self::reparse(b, &fen, 0), Self::reparse(b, &sfen, 2), Self::reparse(b, &fen, 2)
             ),
         );
+    }
+
+    // boards one step away from b (one clock, one right, the ep file, one piece): equal exactly when nothing differs
+    fn obs_near(&mut self, b: &Board) {
+        let mut near: Vec<Board> = vec![b.clone()];
+        let mut c = b.clone();
+        let f = b.fullmove_number();
+        if guard(|| c.set_fullmove_number(if f < 65535 { f + 1 } else { f - 1 })).is_some() {
+            near.push(c);
+        }
+        let mut c = b.clone();
+        let h = b.halfmove_clock();
+        if guard(|| c.set_halfmove_clock(if h < 100 { h + 1 } else { h - 1 })).is_some() {
+            near.push(c);
+        }
+        let base = BoardBuilder::from_board(b);
+        let mut push = |bb: BoardBuilder| {
+            if let Some(Ok(x)) = guard(|| bb.build()) {
+                near.push(x);
+            }
+        };
+        for &col in &Color::ALL {
+            let r = *base.castle_rights(col);
+            if r.short.is_some() {
+                let mut t = base.clone();
+                t.castle_rights_mut(col).short = None;
+                push(t);
+            }
+            if r.long.is_some() {
+                let mut t = base.clone();
+                t.castle_rights_mut(col).long = None;
+                push(t);
+            }
+        }
+        if base.en_passant.is_some() {
+            let mut t = base.clone();
+            t.en_passant = None;
+            push(t);
+        }
+        let others: Vec<Square> = Square::ALL.iter().copied().filter(|&s| matches!(base.square(s), Some((p, _)) if p != Piece::King)).collect();
+        if !others.is_empty() {
+            let s = *self.rng.pick(&others);
+            let mut t = base.clone();
+            *t.square_mut(s) = None;
+            push(t);
+        }
+        for x in near {
+            let eq = guard(|| *b == x && x == *b);
+            self.out.emit("pair", &format!("\"a\":{},\"o\":{},\"eq\":{}", proj(b), proj(&x), eq.unwrap_or(false)));
+        }
     }
 
     fn obs_fresh(&mut self, b: &Board) {
